@@ -16,6 +16,13 @@ type zvAbs struct {
 
 // zvGenNode builds a subtree of height h. prev points at the last leaf key generated so far (nil at
 // the start); every new leaf key is strictly greater. Returns the node and its first leaf key.
+// zvFill, when non-nil, fixes the number of entries of every non-root node per level (index = height
+// of the node): used for height-2 trees, where every fill pattern of every node (1 872 shapes with
+// up to 27 symbolic keys) is out of reach. What an operation does depends on the fill of the nodes
+// on ITS path, and with level-wide fills every combination (2|3)^3 along a path occurs, at every
+// key position.
+var zvFill []int
+
 func zvGenNode(h int, isRoot bool, prev **int, a *zvAbs) (*node[int, int], int) {
 	n := &node[int, int]{}
 	first := 0
@@ -24,7 +31,11 @@ func zvGenNode(h int, isRoot bool, prev **int, a *zvAbs) (*node[int, int], int) 
 		if isRoot {
 			lo = 0
 		}
-		n.m = lo + vrt.Choice(4-lo)
+		if zvFill != nil && !isRoot {
+			n.m = zvFill[0]
+		} else {
+			n.m = lo + vrt.Choice(4-lo)
+		}
 		for i := 0; i < n.m; i++ {
 			k, v, r := vrt.Int(), vrt.Int(), vrt.Bool()
 			if *prev != nil {
@@ -40,7 +51,11 @@ func zvGenNode(h int, isRoot bool, prev **int, a *zvAbs) (*node[int, int], int) 
 		}
 		return n, first
 	}
-	n.m = 2 + vrt.Choice(2)
+	if zvFill != nil && !isRoot {
+		n.m = zvFill[h]
+	} else {
+		n.m = 2 + vrt.Choice(2)
+	}
 	for i := 0; i < n.m; i++ {
 		c, f := zvGenNode(h-1, false, prev, a)
 		key := f
@@ -55,6 +70,10 @@ func zvGenNode(h int, isRoot bool, prev **int, a *zvAbs) (*node[int, int], int) 
 
 func zvTree() (*BTree[int, int], *zvAbs) {
 	h := vrt.Choice(vrt.Pick(1, 2) + 1)
+	zvFill = nil
+	if h == 2 {
+		zvFill = []int{2 + vrt.Choice(2), 2 + vrt.Choice(2), 0}
+	}
 	a := &zvAbs{}
 	var prev *int
 	root, _ := zvGenNode(h, true, &prev, a)
